@@ -14,6 +14,8 @@ use std::time::{Duration, Instant};
 const TIMEOUT_MS: u64 = 700;
 const MEM_LIMIT: usize = 64 << 20;
 const KINDS: [char; 7] = ['A', 'P', 'S', 'M', 'X', 'B', 'L'];
+const WORK_MS: u64 = 200;
+const IDLE_KINDS: [char; 4] = ['A', 'W', 'G', 'g'];
 const MARKER: &str = "c18-deliberate-panic";
 
 #[derive(Serialize, Deserialize, Debug)]
@@ -98,6 +100,13 @@ pub fn seq_main(kinds: &str, gap_ms: u64) -> ! {
                 'S' => Req::Sleep(TIMEOUT_MS * 10, tag),
                 // overruns the limit only slightly: its late reply must never reach a later request
                 'L' => Req::Sleep(TIMEOUT_MS + TIMEOUT_MS / 2, tag),
+                // a slow but legal request (well inside the limit)
+                'W' => Req::Sleep(WORK_MS, tag),
+                // idle time between two requests (no request is sent): longer / shorter than the limit
+                'G' | 'g' => {
+                    async_std::task::sleep(Duration::from_millis(if *k == 'G' { TIMEOUT_MS + TIMEOUT_MS / 2 } else { TIMEOUT_MS / 2 })).await;
+                    continue;
+                }
                 'M' => Req::Alloc(MEM_LIMIT * 4, tag),
                 'X' => Req::Exit(3, tag),
                 _ => Req::Big(big_payload(i), tag),
@@ -143,10 +152,20 @@ impl C18 {
         for l in &lens {
             fams.add(&format!("fault sequences of length {} (+2 trailing normal requests) x gap", l), vec![7u64.pow(*l as u32), 2]);
         }
+        // idle time between legal requests must not count against anybody's time limit
+        let idle_len = if tier == "thorough" { 3 } else { 2 };
+        fams.add(&format!("idle gaps: sequences of length {} over normal / slow-but-legal / long idle / short idle (+ a slow and a normal request)", idle_len), vec![4u64.pow(idle_len)]);
         C18 { fams, lens }
     }
     fn seq(&self, idx: u64) -> (String, u64) {
         let (f, d) = self.fams.locate(idx);
+        if f == self.lens.len() {
+            let l = if self.lens.len() > 2 { 3 } else { 2 };
+            let digits = decode(d[0], &vec![4; l]);
+            let mut s: String = digits.iter().map(|x| IDLE_KINDS[*x as usize]).collect();
+            s.push_str("WA");
+            return (s, 0);
+        }
         let l = self.lens[f] as usize;
         let digits = decode(d[0], &vec![7; l]);
         let mut s: String = digits.iter().map(|x| KINDS[*x as usize]).collect();
@@ -270,10 +289,20 @@ fn judge(kinds: &str, lines: &[Value]) -> Vec<(String, String)> {
             bad.push(("reply arrives later than the time limit allows".to_string(), ctx("too late")));
         }
         match k {
+            'W' => {
+                if !(res == "ok" && l["value"].as_i64() == Some(tag)) {
+                    bad.push((
+                        format!("slow but legal request ({} ms of a {} ms limit) after [{}] is not served", WORK_MS, TIMEOUT_MS, idle_class(&ks[..i])),
+                        ctx("a request that stays inside the time limit must be answered with its own result however long the caller waited before sending it"),
+                    ));
+                    continue;
+                }
+                current_pid = Some(l["pid"].as_u64().unwrap_or(0) as u32);
+            }
             'A' | 'B' => {
                 if res != "ok" {
                     bad.push((
-                        format!("normal request after [{}] is not served", prefix_class(&ks[..i])),
+                        format!("normal request after [{}] is not served", if matches!(ks[..i].last(), Some('G') | Some('g')) { idle_class(&ks[..i]).to_string() } else { prefix_class(&ks[..i]) }),
                         ctx("a normal request must be answered with its own result whatever preceded it"),
                     ));
                     continue;
@@ -321,8 +350,9 @@ fn judge(kinds: &str, lines: &[Value]) -> Vec<(String, String)> {
         }
     }
     let replies = lines.iter().filter(|l| l.get("i").is_some()).count();
-    if replies != ks.len() && bad.is_empty() {
-        bad.push(("not every request received exactly one reply".to_string(), format!("{}: {} replies for {} requests", kinds, replies, ks.len())));
+    let requests = ks.iter().filter(|k| **k != 'G' && **k != 'g').count();
+    if replies != requests && bad.is_empty() {
+        bad.push(("not every request received exactly one reply".to_string(), format!("{}: {} replies for {} requests", kinds, replies, requests)));
     }
     if let Some(p) = last_fault_pid {
         if pid_alive(p) {
@@ -330,6 +360,14 @@ fn judge(kinds: &str, lines: &[Value]) -> Vec<(String, String)> {
         }
     }
     bad
+}
+
+fn idle_class(prefix: &[char]) -> &'static str {
+    match prefix.last() {
+        Some('G') => "an idle time longer than the limit",
+        Some('g') => "an idle time shorter than the limit",
+        _ => "no idle time",
+    }
 }
 
 /// which kind of fault immediately precedes (used to keep signatures narrow)
@@ -349,13 +387,13 @@ impl Space for C18 {
         Meta {
             id: "C18",
             level: "fault_enumeration",
-            rule: format!("every sequence of length <= {} over the seven request kinds {{normal, panic, overrun of the time limit by 10x, overrun by 1.5x (its reply arrives late), allocation beyond the memory limit, child exit, 2 MiB payload}}, each followed by two normal requests, x gap in {{0 ms, 400 ms}} after each fault, run against the real rink_sandbox::Sandbox with real child processes (one parent process per sequence). Oracle: every execute returns within the time limit + 2.5 s; reply i belongs to request i (unique operands / payload checksum); normal and large requests succeed whatever preceded them; panic -> Error::Panic with the marker, overrun -> Timeout, memory/exit -> Crashed; after a fault the next reply comes from another process and the failed child is gone; no process of the group outlives the parent. Non-trivial = the sequence contains a fault followed by a request (all do); distinct by (sequence, gap)", self.lens.last().unwrap()),
+            rule: format!("every sequence of length <= {} over the seven request kinds {{normal, panic, overrun of the time limit by 10x, overrun by 1.5x (its reply arrives late), allocation beyond the memory limit, child exit, 2 MiB payload}}, each followed by two normal requests, x gap in {{0 ms, 400 ms}} after each fault; plus every sequence over {{normal, slow-but-legal (200 ms), idle 1.5x the limit, idle 0.5x the limit}} followed by a slow and a normal request (idle time between requests must not count against the limit); run against the real rink_sandbox::Sandbox with real child processes (one parent process per sequence). Oracle: every execute returns within the time limit + 2.5 s; reply i belongs to request i (unique operands / payload checksum); normal and large requests succeed whatever preceded them; panic -> Error::Panic with the marker, overrun -> Timeout, memory/exit -> Crashed; after a fault the next reply comes from another process and the failed child is gone; no process of the group outlives the parent. Non-trivial = the sequence contains a fault followed by a request (all do); distinct by (sequence, gap)", self.lens.last().unwrap()),
             assumptions: vec![
                 format!("service time limit {} ms (hundreds of times a normal round trip); a sequence whose only anomaly is timing is re-run once alone before being believed", TIMEOUT_MS),
                 "child memory limit 64 MiB, RUST_BACKTRACE=0".into(),
             ],
             exhaustive: true,
-            extra: json!({"families": self.fams.summary(), "request_kinds": {"A": "normal add", "P": "panic", "S": "sleep 10x the limit", "L": "sleep 1.5x the limit (late reply)", "M": "allocate 4x the limit", "X": "exit(3)", "B": "2 MiB payload echo"}}),
+            extra: json!({"families": self.fams.summary(), "request_kinds": {"A": "normal add", "P": "panic", "S": "sleep 10x the limit", "L": "sleep 1.5x the limit (late reply)", "M": "allocate 4x the limit", "X": "exit(3)", "B": "2 MiB payload echo", "W": "sleep 200 ms (legal)", "G": "no request: idle 1.5x the limit", "g": "no request: idle 0.5x the limit"}}),
         }
     }
     fn len(&self) -> u64 {
